@@ -440,7 +440,7 @@ def run(ctx):
             replay(ctx, dict(w))
             ctx.count('known_finding_witness')
     tables = parsed_tables()
-    per_entry = ctx.scale(12, 150)
+    per_entry = ctx.scale(30, 300)
     for tag in ('default', 'v1', 'v2', 'v3', 'v4'):
         for key, props in tables[tag]:
             for _ in range(per_entry):
